@@ -16,9 +16,14 @@ class CrashTracer:
     first entered, so that crash points can be biased to interesting places.
     """
 
-    def __init__(self, crash_at=None, watch=()):
+    def __init__(self, crash_at=None, watch=(), relative_to=None):
+        """relative_to: name of a watched function; crash_at then counts line events from its first entry."""
         self.prefix = loader.pkg_dir() + "/"
-        self.crash_at = crash_at
+        self.crash_at = crash_at if relative_to is None else None
+        self.relative_to = relative_to
+        self.offset = crash_at
+        if relative_to:
+            watch = tuple(watch) + (relative_to,)
         self.count = 0
         self.fired = None
         self.watch = set(watch)
@@ -29,6 +34,8 @@ class CrashTracer:
             name = frame.f_code.co_name
             if name in self.watch and name not in self.marks:
                 self.marks[name] = self.count
+                if name == self.relative_to and self.offset is not None:
+                    self.crash_at = self.count + self.offset
             return self._local
         return None
 
